@@ -150,6 +150,37 @@ where
     } // end of dump
 } // end of impl MaxValueTracker
 
+// verification hooks: compiled only with `--cfg probminhash_verif`
+#[cfg(probminhash_verif)]
+pub mod verif_hooks {
+    use super::MaxValueTracker;
+    /// public wrapper over the crate-private tracker, f64 values
+    pub struct VerifTracker(MaxValueTracker<f64>);
+    impl VerifTracker {
+        pub fn new(m: usize) -> Self {
+            VerifTracker(MaxValueTracker::new(m))
+        }
+        pub fn update(&mut self, k: usize, value: f64) {
+            self.0.update(k, value)
+        }
+        pub fn get_max_value(&self) -> f64 {
+            self.0.get_max_value()
+        }
+        pub fn get_value(&self, slot: usize) -> f64 {
+            self.0.get_value(slot)
+        }
+        pub fn is_update_possible(&self, value: f64) -> bool {
+            self.0.is_update_possible(value)
+        }
+        pub fn reset(&mut self) {
+            self.0.reset()
+        }
+        pub fn nb_nodes(&self) -> usize {
+            self.0.values.len()
+        }
+    }
+}
+
 #[cfg(test)]
 mod tests {
 
